@@ -485,6 +485,36 @@ func (sc *c11Scenario) laws(s *simrt.Sim, add func(clause, fp, detail string)) {
 			add("once-per-evaluation", "FlatMap-function-returning-its-own-source", fmt.Sprintf("m.FlatMap(func(_) { return m }).Eval() = %d after %d effect runs (want 20 after 2); followed by .FlatMap(+1).Eval() = %d after %d runs in total (want 41 after 4)", v1, n1, v2, n))
 		}
 	}
+	// fault: a user effect (resp. the OnNext) panics during a Subscribe without handlers - the panic reaches the caller of
+	// Subscribe (nothing swallows it, so the caller knows OnNext did not run), and a later Subscribe of the same MonadIO
+	// is an ordinary evaluation
+	for _, where := range []string{"effect", "OnNext"} {
+		runs, nexts, boom := 0, 0, true
+		mp := fpgo.MonadIONewGenerics(func() int {
+			runs++
+			if boom && where == "effect" {
+				panic("c11-effect-boom")
+			}
+			return 5
+		}).FlatMap(func(v int) *fpgo.MonadIODef[int] { return fpgo.MonadIOJustGenerics(v + 1) })
+		sub := fpgo.Subscription[int]{OnNext: func(v int) {
+			if boom && where == "OnNext" {
+				panic("c11-effect-boom")
+			}
+			nexts++
+		}}
+		var caught interface{}
+		func() {
+			defer func() { caught = recover() }()
+			mp.Subscribe(sub)
+		}()
+		s.Fault("user-callback-panics")
+		boom = false
+		mp.Subscribe(sub)
+		if caught != "c11-effect-boom" || nexts != 1 || runs != 2 {
+			add("once-per-evaluation", "panic-of-a-user-callback-during-Subscribe", fmt.Sprintf("Subscribe (no handlers) whose %s panics: the caller saw panic %v (want c11-effect-boom); after a second, healthy Subscribe: effect ran %d times (want 2), OnNext completed %d times (want 1)", where, caught, runs, nexts))
+		}
+	}
 	// re-entrancy: an OnNext that subscribes the same MonadIO again and re-configures it - every (nested) Subscribe
 	// is an evaluation of its own: the effect and OnNext once per Subscribe
 	{
